@@ -117,16 +117,22 @@ def worlds(tier):
             g[member] = x
             qv.append(tuple(g))
     qv += [("0/0", "0/1", "0/1", "0/0"), ("0/1", "1/1", "1/1", "0/1"), ("0/0", "1/1", "0/1", "0/1"), ("0/0", "0/0", "0/1", "0/0")]
+    # (both orders of the two PED records: the family representative is the smallest sample name,
+    # which a later record may introduce)
     for g in qv:
         for support in ("none", "all"):
-            yield mk(seed, qnames, [g], support, None, {})
+            for rev in (False, True):
+                yield mk(seed, qnames, [g], support, None, {}, ped_reversed=rev)
     for g1 in qv:
         for g2 in qv:
-            for support in ("all",) + (("none", "child") if T else ()):
-                yield mk(seed, qnames, [g1, g2], support, None, {})
+            for support in ("all", "none") + (("child",) if T else ()):
+                for rev in (False, True):
+                    if rev and support == "all" and not T and (qv.index(g1) + qv.index(g2)) % 2:
+                        continue
+                    yield mk(seed, qnames, [g1, g2], support, None, {}, ped_reversed=rev)
 
 
-def mk(seed, names, gts, support, recomb, opts):
+def mk(seed, names, gts, support, recomb, opts, ped_reversed=False):
     k = len(gts)
     nchildren = len(names) - 2
     haps = family_haps(gts, nchildren, recomb)
@@ -138,6 +144,8 @@ def mk(seed, names, gts, support, recomb, opts):
             if k >= 2:
                 world["reads"].append({"sample": n, "chrom": "chrA", "hap": h, "segs": [[0, k - 1, 6, 6]], "n": 3 if recomb is not None else 1})
     trios = [(c, names[0], names[1]) for c in names[2:]]
+    if ped_reversed:
+        trios = trios[::-1]
     return {"world": world, "trios": [list(t) for t in trios], "opts": opts, "support": support}
 
 
